@@ -143,6 +143,240 @@ Definition act_create_schema (args : list pyval) : res pyval :=
   | _ => Unsupported "create_schema form"
   end.
 
+(* ---------- CREATE TABLE: core column syntax ---------------------------------------------------------- *)
+Definition remove_par (l : list pyval) : list pyval :=
+  filter (fun v => negb (pystr_eq v "(" || pystr_eq v ")")) l.
+Definition is_pdict (v : pyval) : bool := match v with PDict _ => true | _ => false end.
+Definition starts_with_digit (s : string) : bool := match s with String c _ => is_digit_c c | _ => false end.
+
+(* p_create_table for `CREATE TABLE` (no IF NOT EXISTS / OR REPLACE / modifiers) *)
+Definition act_create_table (args : list pyval) : res pyval :=
+  match args with
+  | [PStr "CREATE"; PStr "TABLE"] => Ok (PDict [])
+  | _ => Unsupported "create_table form"
+  end.
+
+(* p_t_name *)
+Definition act_t_name (args : list pyval) : res pyval :=
+  match args with
+  | [name] => Ok (PDict [("schema", PNone); ("table_name", name); ("columns", PList []); ("checks", PList [])])
+  | [schema; _; name] => Ok (PDict [("schema", schema); ("table_name", name); ("columns", PList []); ("checks", PList [])])
+  | _ => Unsupported "t_name form"
+  end.
+
+(* p_table_name : create_table t_name *)
+Definition act_table_name (args : list pyval) : res pyval :=
+  match args with
+  | [PDict a; PDict b] => Ok (PDict (dict_update a b))
+  | _ => Unsupported "table_name form"
+  end.
+
+(* words that p_c_type / process_type / process_array_types treat specially *)
+Definition plain_type_word (w : string) : bool :=
+  negb (contains w "ARRAY") && negb (contains w "<") && negb (contains w "[") && negb (contains w ".")
+  && negb (String.eqb (lower w) "distkey") && negb (String.eqb (lower w) "encode")
+  && negb (String.eqb w "ENUM") && negb (String.eqb w "SET") && negb (contains (upper w) "IDENTITY")
+  && String.eqb (strip w) w && negb (String.eqb w "").
+
+(* p_c_type for `id` and `id id` *)
+Definition act_c_type (args : list pyval) : res pyval :=
+  match args with
+  | [PStr w] => if plain_type_word w then Ok (PDict [("type", PStr w)]) else Unsupported "c_type: special type word"
+  | [PStr w1; PStr w2] =>
+      if plain_type_word w1 && plain_type_word w2 then Ok (PDict [("type", PStr (w1 ++ " " ++ w2))])
+      else Unsupported "c_type: special type word"
+  | _ => Unsupported "c_type form"
+  end.
+
+(* Column.get_size on digit strings *)
+Definition size_int (s : string) : res pyval :=
+  if isnumeric s then match int_of_string s with Some z => Ok (PInt z) | None => Raise ValueError end
+  else Unsupported "size word is not a digit string".
+
+(* p_column *)
+Definition act_column (args : list pyval) : res pyval :=
+  match args with
+  | [PStr name; PDict ct] =>
+      if String.eqb name "KEY" || String.eqb name "." then Unsupported "column: KEY / dot as name"
+      else match ct with
+           | [("type", PStr ty)] => Ok (PDict [("name", PStr name); ("type", PStr ty); ("size", PNone)])
+           | _ => Unsupported "column: c_type with properties"
+           end
+  | [PDict col; PStr "("; PStr n; PStr ")"] =>
+      if dict_has col "index_stmt" || dict_has col "identity" then Unsupported "column: index / identity"
+      else do z <- size_int n; Ok (PDict (dict_set col "size" z))
+  | [PDict col; PStr "("; PStr p; PStr ","; PStr sc; PStr ")"] =>
+      if dict_has col "index_stmt" || dict_has col "identity" then Unsupported "column: index / identity"
+      else do a <- size_int p; do b <- size_int sc; Ok (PDict (dict_set col "size" (PTuple [a; b])))
+  | _ => Unsupported "column form"
+  end.
+
+Definition adict := list (string * pyval).
+Definition getb (d : adict) (k : string) : bool := match dict_get d k with Some (PBool b) => b | _ => false end.
+Fixpoint adel (d : adict) (k : string) : adict :=
+  match d with [] => [] | (k', v) :: r => if String.eqb k k' then r else (k', v) :: adel r k end.
+
+(* p_defcolumn: the common tail after get_column_properties / set_property.
+   pk / unique: as found by get_column_properties; nullable_false: it returned nullable = False (PRIMARY KEY);
+   refs: the reference it found (None otherwise) *)
+Definition defcol_finish (d : adict) (pk unique nullable_false : bool) (refs : pyval) : adict :=
+  let d1 := dict_set d "references" (match dict_get d "references" with Some v => v | None => refs end) in
+  let d2 := dict_set d1 "unique" (PBool (unique || getb d1 "unique")) in
+  let d3 := dict_set d2 "primary_key" (PBool (pk || getb d2 "primary_key")) in
+  let d4 := dict_set d3 "nullable" (if nullable_false then PBool false
+                                    else match dict_get d3 "nullable" with Some v => v | None => PBool true end) in
+  let d5 := dict_set d4 "default" (match dict_get d4 "default" with Some v => v | None => PNone end) in
+  dict_set d5 "check" (match dict_get d5 "check" with Some v => v | None => PNone end).
+
+(* get_column_properties on a trailing {"references": r}: r["column"] = r["columns"][0]; del r["columns"] *)
+Definition ref_to_column_form (r : adict) : res adict :=
+  match dict_get r "columns" with
+  | Some (PList (c :: _)) => Ok (adel (dict_set r "column" c) "columns")
+  | Some (PList []) => Raise IndexError
+  | _ => Raise KeyError
+  end.
+
+(* `d.get(k)` is truthy *)
+Definition truthy_a (v : pyval) : bool :=
+  match v with
+  | PNone => false | PBool b => b | PInt z => negb (Z.eqb z 0)
+  | PStr s => negb (String.eqb s "") | PList l | PTuple l => match l with [] => false | _ => true end
+  | PDict d => match d with [] => false | _ => true end
+  end.
+Definition tr (d : adict) (k : string) : bool := match dict_get d k with Some v => truthy_a v | None => false end.
+
+(* p_defcolumn; args = p[1..] *)
+Definition act_defcolumn (args : list pyval) : res pyval :=
+  match args with
+  | [PDict col] =>
+      (* defcolumn -> column : set_property updates the dict with itself *)
+      if tr col "check" || tr col "encode" || dict_has col "index_stmt" then Unsupported "defcolumn: check/encode/index"
+      else Ok (PDict (defcol_finish col false false false PNone))
+  | [PDict d; PDict item] =>
+      if tr d "check" || tr d "encode" || dict_has item "property" || tr item "encode" || tr item "check"
+      then Unsupported "defcolumn: property/encode/check item"
+      else
+        match dict_get item "references" with
+        | Some (PDict r) =>
+            (* defcolumn ref *)
+            do r' <- ref_to_column_form r;
+            let d' := dict_update d [("references", PDict r')] in
+            Ok (PDict (defcol_finish d' false false false (PDict r')))
+        | Some _ => Raise TypeError
+        | None => Ok (PDict (defcol_finish (dict_update d item) false false false PNone))    (* null / default *)
+        end
+  | [PDict d; PStr "PRIMARY"; PStr "KEY"] =>
+      if tr d "check" || tr d "encode" then Unsupported "defcolumn: check/encode"
+      else Ok (PDict (defcol_finish d true false true PNone))
+  | [PDict d; PStr "UNIQUE"] =>
+      if tr d "check" || tr d "encode" then Unsupported "defcolumn: check/encode"
+      else Ok (PDict (defcol_finish d false true false PNone))
+  | [PDict d; PDict refitem; PDict nullitem] =>
+      (* defcolumn ref null : the reference keeps its `columns` list (get_column_properties only looks at the last item) *)
+      if tr d "check" || tr d "encode" || negb (dict_has refitem "references") || dict_has nullitem "references"
+         || dict_has nullitem "property" || tr nullitem "encode" || tr nullitem "check"
+      then Unsupported "defcolumn ref null: unexpected items"
+      else Ok (PDict (defcol_finish (dict_update (dict_update d refitem) nullitem) false false false PNone))
+  | _ => Unsupported "defcolumn form"
+  end.
+
+(* p_null *)
+Definition act_null (args : list pyval) : res pyval :=
+  match args with
+  | [PStr a] => if String.eqb a "NULL" then Ok (PDict [("nullable", PBool true)]) else Unsupported "null form"
+  | [PStr a; PStr b] => if String.eqb a "NOT" && String.eqb b "NULL" then Ok (PDict [("nullable", PBool false)]) else Unsupported "null form"
+  | _ => Unsupported "null form"
+  end.
+
+(* p_default for DEFAULT <one word> / DEFAULT NULL / DEFAULT 'string' *)
+Definition default_value (s : string) : pyval :=
+  if isnumeric s then match int_of_string s with Some z => PInt z | None => PStr s end else PStr s.
+Definition act_default (args : list pyval) : res pyval :=
+  match args with
+  | [PStr d; PStr v] =>
+      if negb (String.eqb d "DEFAULT") || String.eqb v "FOR" || String.eqb v "for" || String.eqb v "DEFAULT" || String.eqb v "(" || String.eqb v ")"
+      then Unsupported "default form"
+      else Ok (PDict [("default", default_value v)])
+  | _ => Unsupported "default form"
+  end.
+
+(* p_multi_id : multi_id -> id ; p_funct_expr : funct_expr -> multi_id *)
+Definition act_multi_id (args : list pyval) : res pyval :=
+  match args with [PStr s] => Ok (PStr s) | _ => Unsupported "multi_id form" end.
+
+(* p_string : STRING -> STRING_BASE *)
+Definition act_string (args : list pyval) : res pyval :=
+  match args with
+  | [PStr s] => Ok (PStr s)
+  | [PStr a; PStr b] => Ok (PStr (a ++ b))
+  | _ => Unsupported "STRING form"
+  end.
+
+(* p_pid : pid -> id *)
+Definition act_pid (args : list pyval) : res pyval :=
+  match args with [PStr s] => Ok (PList [PStr s]) | _ => Unsupported "pid form" end.
+
+(* p_ref *)
+Definition act_ref (args : list pyval) : res pyval :=
+  match args with
+  | [PStr r; PDict tn] =>
+      if negb (String.eqb r "REFERENCES") || truthy_a (match dict_get tn "project" with Some v => v | None => PNone end)
+      then Unsupported "ref form"
+      else
+        do tname <- match dict_get tn "table_name" with Some v => Ok v | None => Raise KeyError end;
+        do sch <- match dict_get tn "schema" with Some v => Ok v | None => Raise KeyError end;
+        Ok (PDict [("references", PDict [("table", tname); ("columns", PList [PNone]); ("schema", sch); ("on_delete", PNone);
+                                          ("on_update", PNone); ("deferrable_initially", PNone)])])
+  | [PDict d; PStr "("; PList cols; PStr ")"] =>
+      match dict_get d "references" with
+      | Some (PDict r) => Ok (PDict (dict_set d "references" (PDict (dict_set r "columns" (PList cols)))))
+      | _ => Raise KeyError
+      end
+  | [PDict d; PStr "ON"; PStr what; PStr act] =>
+      if String.eqb act "ON" || String.eqb act "DELETE" || String.eqb act "UPDATE" || String.eqb act "DEFERRABLE" || String.eqb act "(" || String.eqb act ")"
+      then Unsupported "ref: action word is a keyword"
+      else
+      match dict_get d "references" with
+      | Some (PDict r) =>
+          let r1 := dict_set r "columns" (match dict_get r "columns" with Some v => v | None => PList [PNone] end) in
+          if String.eqb what "DELETE" then Ok (PDict (dict_set d "references" (PDict (dict_set r1 "on_delete" (PStr act)))))
+          else if String.eqb what "UPDATE" then Ok (PDict (dict_set d "references" (PDict (dict_set r1 "on_update" (PStr act)))))
+          else Unsupported "ref ON form"
+      | _ => Raise KeyError
+      end
+  | _ => Unsupported "ref form"
+  end.
+(* p_expression_table for the column-list productions *)
+Definition is_column_dict (d : adict) : bool := dict_has d "type" && dict_has d "name".
+Definition table_add_column (t col : adict) : res pyval :=
+  if negb (is_column_dict col) || dict_has col "cluster_by"
+  then Unsupported "expr: not a plain column"
+  else
+    match dict_get t "columns" with
+    | Some (PList cs) => Ok (PDict (dict_set t "columns" (PList (cs ++ [PDict col]))))
+    | _ => Unsupported "expr: table without columns list"
+    end.
+Definition act_expr_table (prod : string) (args : list pyval) : res pyval :=
+  if String.eqb prod "expr -> table_name LP defcolumn" then
+    match args with
+    | [PDict t; PStr "("; PDict col] => if dict_has t "constraint" then Unsupported "expr: constraint" else table_add_column t col
+    | _ => Unsupported "expr form"
+    end
+  else if String.eqb prod "expr -> expr COMMA defcolumn" then
+    match args with
+    | [PDict t; PStr ","; PDict col] => table_add_column t col
+    | _ => Unsupported "expr form"
+    end
+  else if String.eqb prod "expr -> expr RP" then
+    match args with
+    | [PDict t; PStr ")"] =>
+        if is_column_dict t || dict_has t "index_stmt" || dict_has t "check" || dict_has t "enforced" || dict_has t "references"
+           || dict_has t "constraint" || dict_has t "unique_statement"
+        then Unsupported "expr RP: table dict with special keys" else Ok (PDict t)
+    | _ => Unsupported "expr form"
+    end
+  else Unsupported "expr production".
+
 Definition action (norm : bool) (prod : string) (args : list pyval) : res pyval :=
   match words prod with
   | lhs :: _ :: _ =>
@@ -159,6 +393,26 @@ Definition action (norm : bool) (prod : string) (args : list pyval) : res pyval 
             || startswith prod "expr -> expr CACHE" || String.eqb prod "expr -> expr NOORDER"
             || String.eqb prod "expr -> expr ORDER"
          then act_expression_seq args
+    else if String.eqb prod "create_table -> CREATE TABLE" then act_create_table args
+    else if String.eqb lhs "t_name" then act_t_name args
+    else if String.eqb prod "table_name -> create_table t_name" then act_table_name args
+    else if String.eqb prod "c_type -> id" || String.eqb prod "c_type -> id id" then act_c_type args
+    else if String.eqb prod "column -> id c_type" || String.eqb prod "column -> column LP id RP"
+            || String.eqb prod "column -> column LP id COMMA id RP" then act_column args
+    else if String.eqb prod "defcolumn -> column" || String.eqb prod "defcolumn -> defcolumn null"
+            || String.eqb prod "defcolumn -> defcolumn default" || String.eqb prod "defcolumn -> defcolumn PRIMARY KEY"
+            || String.eqb prod "defcolumn -> defcolumn UNIQUE" || String.eqb prod "defcolumn -> defcolumn ref"
+            || String.eqb prod "defcolumn -> defcolumn ref null" then act_defcolumn args
+    else if String.eqb lhs "null" then act_null args
+    else if String.eqb prod "default -> DEFAULT funct_expr" || String.eqb prod "default -> DEFAULT NULL"
+            || String.eqb prod "default -> DEFAULT STRING" then act_default args
+    else if String.eqb prod "multi_id -> id" || String.eqb prod "funct_expr -> multi_id" then act_multi_id args
+    else if String.eqb prod "STRING -> STRING_BASE" then act_string args
+    else if String.eqb prod "pid -> id" then act_pid args
+    else if String.eqb prod "ref -> REFERENCES t_name" || String.eqb prod "ref -> ref LP pid RP"
+            || String.eqb prod "ref -> ref ON DELETE id" || String.eqb prod "ref -> ref ON UPDATE id" then act_ref args
+    else if String.eqb prod "expr -> table_name LP defcolumn" || String.eqb prod "expr -> expr COMMA defcolumn"
+            || String.eqb prod "expr -> expr RP" then act_expr_table prod args
     else if String.eqb prod "expr -> CREATE TABLESPACE id" || String.eqb prod "expr -> CREATE id TABLESPACE id"
             || String.eqb prod "expr -> CREATE id id TABLESPACE id" then act_tablespace args
     else if String.eqb prod "database_base -> CREATE DATABASE id" then act_database_base args
